@@ -171,7 +171,7 @@ func runC04(c *eng.Ctx) {
 		live := c.One(w, invokeOn(".familyVersion", "GetLiveReferenceFiles"), "GetLiveReferenceFiles(sourceStore)")
 		c.Check(fromSrcStore(eng.CallArgs(live.Instr.(*ssa.Call))[0], src), "lookup:store", live.Instr, w, "already-rolled-up files are looked up under the SOURCE store's name", "")
 		nl := 0
-		for _, b := range w.Blocks {
+		for _, b := range eng.BlocksT(w) {
 			for _, in := range b.Instrs {
 				if l, ok := in.(*ssa.Lookup); ok && eng.DependsOn(l.X, func(x ssa.Value) bool { return x == live.Instr.(ssa.Value) }) {
 					nl++
